@@ -461,7 +461,10 @@ func mixedLists(c *oracleCtx) [][]any {
 	o1, o2, l1 := NewObject("a", 1), NewObject("b", 2), NewList(9)
 	// derived containers (user types embedding List / Object, registered with Init) are Lists / Objects too
 	d1, d2, d3 := newDList(5), newDObject("z", 1), newDDList("dd")
-	atoms := []any{1, -3, 2.5, -0.5, "s", "t", true, false, nil, o1, o2, l1, math.MaxInt, math.MinInt, 7.0, d1, d2, d3, NewList(), NewObject()}
+	// containers whose own children are containers of both kinds (a view is one level deep: grandchildren are never visited)
+	deepO := NewObject("in", NewObject("leaf", 1, "deeper", NewObject("x", "y")), "l", NewList(NewList(3), NewObject("k", 2)), "s", "str", "f", 1.5, "i", 4, "b", true)
+	deepL := NewList(NewList(4, NewList("w")), NewObject("q", NewObject("r", 2.5)), "str", 2.5, 6, false)
+	atoms := []any{1, -3, 2.5, -0.5, "s", "t", true, false, nil, o1, o2, l1, math.MaxInt, math.MinInt, 7.0, d1, d2, d3, NewList(), NewObject(), deepO, deepL}
 	var out [][]any
 	out = append(out, []any{})
 	for _, a := range atoms {
